@@ -123,7 +123,7 @@ theorem source_open_flags_exclusive :
     Gen.textFlagsExcl = true ∧ Gen.textFlagsCreat = true ∧ Gen.textFlagsTrunc = false ∧
     Gen.binFlagsExcl = true ∧ Gen.binFlagsCreat = true ∧ Gen.binFlagsTrunc = false := by decide
 
-/-! ### necessity: dropping an ingredient of `SafeTrace` admits a bad crash outcome -/
+/-! ### necessity: dropping an ingredient of `SafeTrace` allows a bad crash outcome -/
 
 def fsOld : FS := ⟨[⟨[7], [], 0o644⟩], ⟨some 0, none⟩, [], none, 0o022⟩
 
